@@ -70,12 +70,12 @@ def main():
     path = f"{VERIF}/DESIGN.md"
     s = open(path).read()
     for key, fn in (("theorems", theorems), ("seeded", seeded), ("findings", findings), ("sizes", sizes)):
-        pat = re.compile(rf"(<!-- BEGIN:{key} -->\n).*?(\n<!-- END:{key} -->)", re.S)
+        pat = re.compile(rf"(<!-- BEGIN:{key} -->\n).*?(<!-- END:{key} -->)", re.S)
         if not pat.search(s):
             print("marker missing:", key)
             continue
         body = fn()
-        s = pat.sub(lambda m: m.group(1) + body + m.group(2), s)
+        s = pat.sub(lambda m: m.group(1) + body + "\n" + m.group(2), s)
     open(path, "w").write(s)
     print("DESIGN.md refreshed")
 
